@@ -152,8 +152,21 @@ Definition sig_participants (s : qsig) : result (list rid) :=
   | SigNil => Panic
   end.
 
+(* Multi.ToBytes (repaired, fixes/C12-multi-bytes-frame-signatures.patch): every signer's signature
+   bytes preceded by their length (uint32 LE) *)
+Definition framed (l : list (rid * bytes)) : bytes :=
+  concat (map (fun e => le32 (N.of_nat (length (snd e))) ++ snd e) l).
+
 (* sig.ToBytes() *)
 Definition sig_bytes (s : qsig) : result bytes :=
+  match s with
+  | SigECDSA l | SigEDDSA l => Ok (framed l)
+  | SigBLS s _ => Ok s
+  | SigNil => Panic
+  end.
+
+(* Multi.ToBytes before that repair: the signatures back to back (kept for the refutation witnesses) *)
+Definition sig_bytes_unframed (s : qsig) : result bytes :=
   match s with
   | SigECDSA l | SigEDDSA l => Ok (concat (map snd l))
   | SigBLS s _ => Ok s
@@ -275,6 +288,9 @@ End FromPb.
 Definition sig_ids (s : qsig) : list rid := match sig_participants s with Ok l => l | _ => [] end.
 Definition sig_raw (s : qsig) : bytes := match sig_bytes s with Ok b => b | _ => [] end.
 Definition sig_is_nil (s : qsig) : bool := match s with SigNil => true | _ => false end.
+(* the (signer, signature bytes) entries of a multi-signature *)
+Definition sig_entries (s : qsig) : list (rid * bytes) := match s with SigECDSA l | SigEDDSA l => l | _ => [] end.
+Definition sig_is_multi (s : qsig) : bool := match s with SigECDSA _ | SigEDDSA _ => true | _ => false end.
 
 (* the claimed participants as QuorumCert.ToBytes appends them: each id (4 bytes LE), then their count *)
 Definition participants_bytes (ids : list rid) : bytes :=
@@ -291,9 +307,17 @@ Definition qc_sig_part (s : qsig) : bytes :=
    signature is nil, the signature bytes, the participant ids and their count *)
 Definition qc_bytes (q : qc) : bytes := le64 (qc_view q) ++ qc_hash q ++ qc_sig_part (qc_sig q).
 
-(* the encoding before the repair: signature bytes only (kept for the refutation witness) *)
+(* the certificate encodings before the repairs (kept for the refutation witnesses):
+   - old: view, hash, the signatures back to back (no signer ids);
+   - v1:  view, hash, the signatures back to back, then the signer ids and their count *)
 Definition qc_bytes_old (q : qc) : bytes :=
-  le64 (qc_view q) ++ qc_hash q ++ match sig_bytes (qc_sig q) with Ok b => b | _ => [] end.
+  le64 (qc_view q) ++ qc_hash q ++ match sig_bytes_unframed (qc_sig q) with Ok b => b | _ => [] end.
+Definition qc_bytes_v1 (q : qc) : bytes :=
+  le64 (qc_view q) ++ qc_hash q ++
+  match sig_bytes_unframed (qc_sig q), sig_participants (qc_sig q) with
+  | Ok b, Ok ids => b ++ participants_bytes ids
+  | _, _ => []
+  end.
 
 (* PartialCert.ToBytes / TimeoutCert.ToBytes call ToBytes on the signature unguarded *)
 Definition pc_bytes (c : pcert) : result bytes :=
@@ -316,16 +340,22 @@ Definition block_bytes (b : block) : bytes :=
   b_parent b ++ le32 (b_proposer b) ++ le64 (b_view b) ++ le32 (N.of_nat (length (b_batch b))) ++ b_batch b
   ++ qc_bytes (b_cert b) ++ le64 (ts_nanos (b_ts b)).
 
-(* the encodings before the repairs (kept for the refutation witnesses):
-   - unframed: batch bytes directly followed by the certificate bytes;
-   - old: additionally the certificate bytes without the signer ids *)
-Definition block_bytes_unframed (b : block) : bytes :=
-  b_parent b ++ le32 (b_proposer b) ++ le64 (b_view b) ++ b_batch b ++ qc_bytes (b_cert b)
-  ++ le64 (ts_nanos (b_ts b)).
-
+(* the block encodings before the repairs (kept for the refutation witnesses), each with the certificate
+   encoding of its time:
+   - old:      batch directly followed by the certificate bytes without signer ids;
+   - unframed: batch directly followed by the certificate bytes with signer ids;
+   - v2:       batch preceded by its length, certificate with signer ids but the signatures back to back *)
 Definition block_bytes_old (b : block) : bytes :=
   b_parent b ++ le32 (b_proposer b) ++ le64 (b_view b) ++ b_batch b ++ qc_bytes_old (b_cert b)
   ++ le64 (ts_nanos (b_ts b)).
+
+Definition block_bytes_unframed (b : block) : bytes :=
+  b_parent b ++ le32 (b_proposer b) ++ le64 (b_view b) ++ b_batch b ++ qc_bytes_v1 (b_cert b)
+  ++ le64 (ts_nanos (b_ts b)).
+
+Definition block_bytes_v2 (b : block) : bytes :=
+  b_parent b ++ le32 (b_proposer b) ++ le64 (b_view b) ++ le32 (N.of_nat (length (b_batch b))) ++ b_batch b
+  ++ qc_bytes_v1 (b_cert b) ++ le64 (ts_nanos (b_ts b)).
 
 (* ---------- observables the property speaks about ---------- *)
 (* (bytes-to-sign values, participant lists), in a fixed order per object kind *)
